@@ -25,7 +25,7 @@ TEXT = {
  "C17": "Lean theorems (shallow by nature): each modelled PartialEq/PartialOrd impl = text equality / lexCmp; lexCmp is a total order consistent with ==; equal hash inputs. The deciding part is the per-impl differential on ordered pairs (20 eq + 20 ord forms), plus hash/map laws on the real crate.",
  "C18": "Lean theorems: serialize = text, deserialize∘serialize = ok, invalid refused, conversions are the identity on the text, Token::from(int) is canonical decimal. Correspondence: serde round trips, every conversion incl. Box with several capacities, 12 integer types.",
  "C19": "Lean theorems: every listed operation yields a view/pass-through of its argument (spans, Cow::borrowed, input itself); Token::new / decoded build a buffer iff a special byte / escape is present. Correspondence: a counting global allocator around each real call, zero/non-zero vs the model's annotation, plus controls that must allocate.",
- "C20": "Lean theorem all_subsets_build by `decide +kernel` over a feature-gate table regenerated from Cargo.toml and src/**/*.rs by a translator on every run; correspondence: real `cargo check` of all 256 subsets vs the model verdict, and the core operations under no-default-features vs default vs model.",
+ "C20": "Lean theorem all_subsets_build by `decide +kernel` over a feature-gate table regenerated from Cargo.toml and src/**/*.rs by a translator on every run; correspondence: real `cargo check` of all 2^n subsets of the features Cargo.toml declares (256 on the pinned tree) vs the model verdict, and the core operations under no-default-features vs default vs model.",
 }
 NOTE = ("Trusted: Lean 4.33.0 kernel; axioms ⊆ {propext, Classical.choice, Quot.sound} (audited per theorem on every run with #print axioms; no sorry/native_decide/bv_decide/axiom); "
         "the hand-written Lean model of the Rust code, tied to /repo only by the differential correspondence run (jpserve vs jpdriver on generated, bounded-exhaustive and corpus lines); "
